@@ -152,6 +152,16 @@ static void check_tree(const int *exp, int n)
 	check_traversal(exp, n);
 }
 
+/* a node that is inserted may have been in a tree before: its link fields hold anything */
+static struct knode v_junk;
+static void stale_links(struct iv_avl_node *an)
+{
+	an->left = &v_junk.an;
+	an->right = &v_junk.an;
+	an->parent = &v_junk.an;
+	an->height = 9;
+}
+
 static void one_case(int shape, int op, int rev)
 {
 	int n, i, j, exp[MAXN + 1];
@@ -170,6 +180,7 @@ static void one_case(int shape, int op, int rev)
 		int r;
 
 		v_new.key = 2 * op + 1;
+		stale_links(&v_new.an);
 		r = iv_avl_tree_insert(&v_tree, &v_new.an);
 		__CPROVER_assert(r == 0, "[C16] inserting an absent key succeeds");
 		j = 0;
